@@ -726,8 +726,9 @@ class SmtLibParser(object):
                 except ValueError:
                     if not unknown_as_string:
                         raise PysmtSyntaxError("Unknown symbol '%s'" % token)
-                    # a string constant
-                    res = mgr.String(token)
+                    # a string constant; it is not remembered: the
+                    # name stays unknown wherever it is not allowed
+                    return mgr.String(token)
             self.cache.bind(token, res)
         return res
 
